@@ -16,3 +16,13 @@ Definition size_accesses := Eval vm_compute in length accesses.
 Print size_accesses.
 Definition size_nesting := Eval vm_compute in length nesting.
 Print size_nesting.
+Definition diag_wait_graph_acyclic := Eval vm_compute in wait_cycles nesting waits covers.
+Print diag_wait_graph_acyclic.
+Definition diag_table_covers_waits := Eval vm_compute in wait_uncovered waits members.
+Print diag_table_covers_waits.
+Definition size_waits := Eval vm_compute in length waits.
+Print size_waits.
+Definition size_covers := Eval vm_compute in length covers.
+Print size_covers.
+Definition size_wait_edges := Eval vm_compute in length (wait_edges nesting waits covers).
+Print size_wait_edges.
